@@ -70,6 +70,16 @@ CHECKS = {
          "each return is re-checked to be a fixed point and, for false loops, equal to the reference; divergence and update_once must raise; acyclic-only passes must reject.",
          "Trusted: vt/irref.py for false loops; a 20 s alarm as hang detector. Loops through nets/children are not generated.",
          "DESIGN.md 6.C11", "E1 E2"),
+ "C13": ("exploration",
+         "bounded exhaustive enumeration: every pair of a 49-entry catalogue of colliding component instances under one top x both backends (name/body rule + execution of the emitted text), "
+         "and a design catalogue x enumerated PYTHONHASHSEED child processes + object-hash permutations (byte comparison)",
+         "Aliasing: every pair (quick: unordered, thorough: ordered) of catalogue entries -- same class with different values / types / keyword order / defaults / list, type and bitstruct-type "
+         "parameters / >64-character and special-character parameter lists, two classes with one __name__, bodies depending on module-level state, a set_param override -- is built as two "
+         "children of one top and translated by both backends; the text is parsed (every module once, every instantiated name defined, identifiers unique per scope), two instances sharing a "
+         "module name must have identical stand-alone bodies, and the text is executed on 12 inputs against the PyMTL simulation. Determinism: 55 (thorough: +E2 designs) designs x 2 backends "
+         "are translated in one fresh child process per hash seed (6 / 16 seeds) and under 3 object-hash permutations in-process; sha1 of every text must agree. Nine name-mangling designs.",
+         "Hash seeds are enumerated, not quantified (str hashing is outside Python's control). Trusted: vt/svparse.py / vt/svsim.py. Mangled-identifier collisions are a recorded known finding.",
+         "DESIGN.md 6.C13", "E1 E3"),
  "C14": ("exploration",
          "bounded exhaustive enumeration of hierarchies (member menus per level) with on-demand field/slice creation; every object's name evaluated back on the real elaborated design",
          "Every hierarchy with <= 3 top members and <= 2 mid-level members drawn from a 15-entry menu (components, lists and 2-d lists of components, interfaces and lists of them, "
